@@ -362,6 +362,59 @@ def _collect(name, finals, hv, rounds, reached, stats, chk, eng):
     chk.ob("C13.R1", name, "explored-to-completion", ok, "all paths end in return / loop-back / a reported event", detail=stats[name], sample=True)
 
 
+CCS_NAME = "cmp_chars_to_str[start_idx<=s.len()]"
+_WK = {}
+
+
+def _w_init(facts_path):
+    from ..facts import Facts
+    F = Facts(facts_path)
+    ents = entries(F)
+    mod = modular_ids(F)
+    cone = cfg.cone(F, [f for _, f in ents], stop=lambda f: f["id"] in mod)
+    fns = [F.fns[i] for i in cone if F.fns[i] is not None and F.fns[i]["local"] and "blocks" in F.fns[i] and i not in mod]
+    _WK.update(F=F, ents=dict(ents), mod=mod, K=harvest_constants(F, fns))
+
+
+def _w_entry(name):
+    """Explore one entry point. -> (name, stats, [(event key, paths, detail)], error)"""
+    import traceback
+    F, mod, K = _WK["F"], _WK["mod"], _WK["K"]
+    try:
+        eng = make_engine(F, mod)
+        D = DurCtx(F, eng)
+        ccs = contract_cmp_chars(F, eng, [])
+        if name == CCS_NAME:
+            def pre(st, a):
+                from ..models import _str_of
+                s_ = _str_of(eng, st, a[0])
+                return eng.assume(st, c_lin("le", a[1].lin - s_.len))
+            del eng.hooks_by_id[ccs["id"]]
+            hv = Havoc(eng, K)
+            finals, args = D.run(ccs, extra=pre)
+            rounds = 1
+        else:
+            finals, hv, rounds = explore_entry(F, eng, D, _WK["ents"][name], K, None, name)
+            if rounds >= 80:
+                return (name, {}, [], "invariant inference did not converge")
+        ends = {}
+        evs = {}
+        for st in finals:
+            ends[st.end] = ends.get(st.end, 0) + 1
+            for e in st.events:
+                if e["kind"] in ("panic", "limit", "unreachable", "unmodelled", "imprecise"):
+                    key = (e.get("fn") or "?", e["kind"], e["msg"].split(" (")[0])
+                    if key not in evs:
+                        evs[key] = [0, {"span": e.get("span"), "stack": [_short(x) for x in e.get("stack", [])][-4:], "path": describe_path(eng, st, 10)}]
+                    evs[key][0] += 1
+        inv = hv.surviving()
+        stats = {"paths": len(finals), "ends": ends, "houdini_rounds": rounds, "engine": dict(eng.stats),
+                 "loops": {"%s@bb%d" % (_short(k[0]), k[1]): dict(v, invariants=len(inv.get(k, []))) for k, v in hv.loops_seen.items()}}
+        return (name, stats, [(list(k), v[0], v[1]) for k, v in evs.items()], None)
+    except Exception:
+        return (name, {}, [], traceback.format_exc().strip().splitlines()[-1])
+
+
 def run(chk, F, tier):
     ents = entries(F)
     mod = modular_ids(F)
@@ -376,34 +429,29 @@ def run(chk, F, tier):
     D = DurCtx(F, eng)
     reached = {}
     stats = {}
-    reports = []
-    ccs = contract_cmp_chars(F, eng, reports)
-
-    def pre(st, a):
-        from ..models import _str_of
-        s_ = _str_of(eng, st, a[0])
-        return eng.assume(st, c_lin("le", a[1].lin - s_.len))
-    ents = ents + [("cmp_chars_to_str[start_idx<=s.len()]", ccs)]
-    for name, fn in ents:
-        if fn is ccs:
-            del eng.hooks_by_id[ccs["id"]]
-            hvx = Havoc(eng, K)
-            finals, args = D.run(fn, extra=pre)
-            rounds = 1
-            hv = hvx
-            _collect(name, finals, hv, rounds, reached, stats, chk, eng)
-            continue
-        finals, hv, rounds = explore_entry(F, eng, D, fn, K, chk, name)
-        _collect(name, finals, hv, rounds, reached, stats, chk, eng)
+    # every entry point is explored in a process of its own (independent engines; the slowest, Format::parse, bounds the wall time)
+    names = [n for n, _ in ents] + [CCS_NAME]
+    import os
+    from multiprocessing import Pool
+    with Pool(min(len(names), os.cpu_count() or 4), initializer=_w_init, initargs=(F.path,)) as pool:
+        results = pool.map(_w_entry, names, chunksize=1)
+    for name, st_, evs, err in results:
+        stats[name] = st_
+        if err:
+            chk.error("entry %s: %s" % (name, err))
+        ends = st_.get("ends", {})
+        ok = ends.get("return", 0) >= 1 and ends.get("limit", 0) == 0
+        chk.ob("C13.R1", name, "explored-to-completion", ok, "all paths end in return / loop-back / a reported event", detail=st_, sample=True)
+        for key, npaths, detail in evs:
+            reached.setdefault(tuple(key), []).append((name, npaths, detail))
     # one obligation per inventoried site: not reached by any path
     nreached = 0
     hit_sites = set()
     for (fnk, kind, msg), lst in sorted(reached.items()):
-        ename, st, e = lst[0]
+        ename, npaths, detail = lst[0]
         construct = "%s:%s" % (kind, msg)
         nreached += 1
-        chk.ob("C13.R1", _short(fnk), construct, False, detail={"entry": ename, "paths": len(lst), "span": e.get("span"), "stack": [_short(x) for x in e.get("stack", [])][-4:],
-                                                                 "path": describe_path(eng, st, 10)})
+        chk.ob("C13.R1", _short(fnk), construct, False, detail=dict(detail, entry=ename, paths=sum(x[1] for x in lst)))
         hit_sites.add(fnk)
     for (fnk, desc), span in sorted(sites.items()):
         # discharged unless an event was reported in that function at that construct kind (conservative grouping per function)
